@@ -83,7 +83,7 @@ func init() {
 			opID := fieldOrGetter(r.P.Field("proto/snapshotpb", "OperatorCheckpoint", "CheckpointId"), r.P.FuncObj("proto/snapshotpb", "(*OperatorCheckpoint).GetCheckpointId"))
 			srID := fieldOrGetter(r.P.Field("proto/jobpb", "SourceRunnerCheckpointCompleteRequest", "CheckpointId"), r.P.FuncObj("proto/jobpb", "(*SourceRunnerCheckpointCompleteRequest).GetCheckpointId"))
 			isPendID := func(c *pathsim.Ctx, e ast.Expr) bool {
-				sel, ok := ast.Unparen(e).(*ast.SelectorExpr)
+				sel, ok := deref(c.Info, e).(*ast.SelectorExpr) // (also a local that holds it, directly or out of a helper)
 				return ok && prog.SelField(c.Info, sel) == idF && prog.SelField(c.Info, sel.X) == pend
 			}
 			atoms := []guardAtom{
